@@ -23,7 +23,7 @@ ASSUMPTIONS = ['tolerance c*eps*n*(1+log2 scaling)*|exp(|F|dt)|^2*max(|Q|dt, tin
                'x87 longdouble (64-bit mantissa) available; mpmath 60 digits']
 
 F_CLASSES = ['zero', 'nilpotent', 'stable', 'unstable', 'skew', 'stiff', 'navlike', 'diagonal', 'blockdiag', 'symmetric']
-Q_CLASSES = ['zero', 'rank1', 'singular', 'full', 'diag', 'identity']
+Q_CLASSES = ['zero', 'rank1', 'singular', 'full', 'diag', 'identity', 'wide']
 DT_CHOICES = [0.0, 1e-6, 1e-3, 0.01, 0.1, 0.5, 1.0, 2.0, 5.0, 10.0]
 
 
@@ -148,6 +148,18 @@ def build(case):
         Q = np.eye(n)
     elif qc == 'diag':
         Q = np.diag(rng.uniform(0, 1, n) ** 2)
+    elif qc == 'wide':           # positive definite with noise standard deviations spread over up to six decades (angle random walk in
+        sd = 10.0 ** rng.uniform(-6, 0, n)     # rad/sqrt(s) next to position noise in m/sqrt(s)); diagonal or correlated
+        sd[0] = 1.0
+        if n > 1:
+            sd[-1] = 10.0 ** -rng.uniform(4, 6)
+        if rng.rand() < 0.5:
+            Q = np.diag(sd ** 2)
+        else:
+            A = rng.randn(n, n)
+            Cc = A @ A.T + n * np.eye(n)
+            dC = np.sqrt(np.diag(Cc))
+            Q = (sd[:, None] * (Cc / dC[:, None] / dC[None, :])) * sd[None, :]
     else:
         k = {'rank1': 1, 'singular': max(1, n // 2), 'full': n}[qc]
         G = rng.randn(n, k)
